@@ -339,8 +339,10 @@ theorem reduceShardersList_keeps_prev (s : State) (out : List Nat) (h : reduceSh
 
 /-- **magic_block_keeps_prev**: when `createMagicBlockForWait` produces a magic block, it contains a miner of the
 previous set, and (when the keep list is used, i.e. non-empty — `moveToShareOrPublish` requires `len(keep) ≥ min_s ≥ 1`)
-a sharder of the previous set. Hypotheses: `gn.PrevMagicBlock` is not set or is the latest finalized magic block
-(`hpool`), and `x_percent` is positive in the sense that the quota of previous members is at least one (`hx`). -/
+a sharder of the previous set. Hypotheses: the previous set the contract remembers (`gn.PrevMagicBlock`, else the latest
+finalized magic block) has the same miners as the chain's latest finalized magic block, whose pool `reduce` uses
+(`hpool`: true before the first view change and whenever the magic block in force has been finalized), and `x_percent`
+is positive in the sense that the quota of previous members is at least one (`hx`). -/
 theorem magic_block_keeps_prev (s s' : State) (h : createMagicBlockForWait s = .ok s')
     (hpool : (prevMB s).miners.vis = s.lfmb.miners.vis)
     (hmaxN : 1 ≤ s.cfg.maxN)
@@ -401,19 +403,6 @@ theorem reduceShardersList_panics_at_x0 :
      | .panic => true
      | _ => false) = true := by decide
 
-/-! ### after a view change (information): the machine cannot leave Start any more
-
-`SetMagicBlock` stores in `gn.PrevMagicBlock` a magic block that was read back from the state; its pools have lost
-their `NodesMap` (`Pool.UnmarshalMsg`), so `hasPrevShader` / `hasPrevMiner` are false for every list. -/
-theorem start_never_advances_after_view_change (s : State) (mb : MB) (hg : s.gnPrev = some mb)
-    (hm : mb.miners.vis = []) (hs : mb.sharders.vis = []) : moveToContribute s = false := by
-  have h1 : ∀ l, hasPrevSharderIn s l = false := by
-    intro l
-    unfold hasPrevSharderIn prevMB
-    simp [hg, hs]
-  unfold moveToContribute
-  simp [h1]
-
 /-! ### the generated tables (regenerated from minersc.go / sc.yaml on every run) -/
 
 /-- the schedule the property names: Start, Contribute, Share, Publish, Wait — numbered 0..4 in this order. -/
@@ -467,5 +456,28 @@ example : ((setPhaseNode { sPublishDone with gsos := some [0] } (getPhaseNode sP
 example : Except.isOk (contributeMpk sContribute 2 3 none) = true := by decide
 example : Except.isOk (wait sWait 1) = true := by decide
 example : gsosOf (shareSignsOrShares sPublish 1 3 true 1) = [1] := by decide
+
+/-! ### after a view change: the next DKG can start
+
+`SetMagicBlock` stores the magic block read back from the state in `gn.PrevMagicBlock`; since commit 964b895
+(`Pool.UnmarshalMsg` restores `NodesMap`) its pools keep their members, so `hasPrevShader` / `hasPrevMiner` find the
+members of the new set. (Before the repair the pools looked empty and `moveToContribute` failed for ever.) -/
+
+/-- the state of `sPublishDone` one view change later: the magic block it produced is in force (stored, in
+`gn.PrevMagicBlock`, finalized as the chain's latest magic block), the DKG lists are cleared, phase Start has run. -/
+def sAfterVC : State :=
+  match createMagicBlockForWait sPublishDone with
+  | .ok s' =>
+    { s' with round := 17, pn := some ⟨pStart, 14, 14, 0⟩, dkg := DKG.empty 0, gnPrev := s'.mb,
+              lfmb := s'.mb.getD s'.lfmb, lastRound := 16 }
+  | _ => sPublishDone
+
+/-- the previous-set tests see the members of the magic block that came into force, and Start moves on to Contribute
+with the DKG list of the second view change. -/
+theorem next_view_change_starts :
+    (prevMB sAfterVC).miners.vis = [2, 0, 1, 3] ∧ (prevMB sAfterVC).sharders.vis = [100, 102] ∧
+    moveToContribute sAfterVC = true ∧
+    ((setPhaseNode sAfterVC (getPhaseNode sAfterVC)).map fun s => (s.pn.map (·.phase), ids s.dkg.nodes, s.dkg.t, s.dkg.k))
+      = some (some pContribute, [0, 1, 2, 3], 3, 3) := by decide
 
 end ZChain.ViewChange
